@@ -15,6 +15,6 @@ mkdir -p $VS/evidence
 sed -i "s|=> /repo|=> $WT|" $VS/harness/go.mod
 cd $VS
 for c in "$@"; do
-  timeout 3000 ./check $c --tier quick --no-evidence > $VS/seedrun-$c.log 2>&1; rc=$?
+  timeout 3000 ./check $c --tier ${TIER:-quick} --no-evidence > $VS/seedrun-$c.log 2>&1; rc=$?
   echo "$c exit=$rc $(grep -a -m1 '^VIOLATION' $VS/seedrun-$c.log | sed "s|$VS|/verif|") $(grep -a -m1 'held on' $VS/seedrun-$c.log | cut -c1-60)"
 done
